@@ -42,11 +42,22 @@ async fn read_chunked(r: &mut wtransport::RecvStream, seed: u64, wait: Duration)
     let mut data = vec![];
     let mut buf = vec![0u8; 70_000];
     loop {
-        let k = match rng.below(3) {
+        let k = match rng.below(4) {
             0 => 1 + rng.below(8) as usize,
             1 => 1 + rng.below(2000) as usize,
+            // an empty destination: reads nothing, says so, and is not the end of the stream
+            2 if data.len() % 3 == 1 => 0,
             _ => buf.len(),
         };
+        if k == 0 {
+            match tokio::time::timeout(wait, r.read(&mut buf[..0])).await {
+                Ok(Ok(Some(0))) => continue,
+                Ok(Ok(None)) => return (data, 4),   // end-of-stream reported for an empty read
+                Ok(Ok(Some(_))) => return (data, 5),
+                Ok(Err(_)) => return (data, 3),
+                Err(_) => return (data, 2),
+            }
+        }
         match tokio::time::timeout(wait, r.read(&mut buf[..k])).await {
             Ok(Ok(Some(n))) => data.extend(&buf[..n]),
             Ok(Ok(None)) => return (data, 0),
@@ -72,7 +83,99 @@ pub async fn exec(a: &Args) -> Args {
     exec_inner(a).await
 }
 
+/// Writes until the stream accepts nothing more for `idle`; returns the bytes accepted.
+async fn fill_until_blocked(stream: &mut wtransport::SendStream, idle: Duration) -> Option<usize> {
+    let chunk = [0xAAu8; 1024];
+    let mut total = 0;
+    loop {
+        match tokio::time::timeout(idle, stream.write(&chunk)).await {
+            Ok(Ok(n)) => total += n,
+            Ok(Err(_)) => return None,
+            Err(_) => return Some(total),
+        }
+    }
+}
+
+/// a[0][5] = 1: a stream is opened while only a[0][3] (1 or 2) bytes of connection-level credit are
+/// left, fewer than its three-byte preamble.  The acceptor advertises a 64 KiB connection window and
+/// leaves a filler stream unread; credit is handed back 32 KiB at a time (one read = one update).
+/// Result [[3]] = the credit could not be calibrated on this machine (no verdict).
+async fn exec_tight(a: &Args) -> Args {
+    let (kind, seed, left) = (a[0][1], a[0][2], a[0][3] as usize);
+    const REFILL: usize = 32 * 1024;
+    let mut t = wtransport::quinn::TransportConfig::default();
+    t.receive_window(wtransport::quinn::VarInt::from_u32(64 * 1024));
+    let (server, addr) = wt_server(Some(t));
+    let client = wt_client();
+    let url = format!("https://127.0.0.1:{}/tight", addr.port());
+    let (sc, cc) = tokio::join!(wt_accept(&server), tokio::time::timeout(T_CALL, client.connect(&url)));
+    let (sconn, cconn) = match (sc, cc) {
+        (Ok(s), Ok(Ok(c))) => (s, c),
+        _ => return vec![vec![2]],
+    };
+    let idle = Duration::from_millis(400);
+    let mut filler = match cconn.open_uni().await { Ok(o) => match o.await { Ok(s) => s, Err(_) => return vec![vec![3]] }, Err(_) => return vec![vec![3]] };
+    let mut filler_r = match tokio::time::timeout(T_CALL, async { let _ = filler.write_all(b"x").await; sconn.accept_uni().await }).await { Ok(Ok(r)) => r, _ => return vec![vec![3]] };
+    // exhaust the window, then three rounds: flush unannounced credit, calibrate, for real
+    if fill_until_blocked(&mut filler, idle).await.is_none() { return vec![vec![3]]; }
+    let mut scratch = vec![0u8; REFILL];
+    for round in 0..3 {
+        if filler_r.read_exact(&mut scratch).await.is_err() { return vec![vec![3]]; }
+        let spend = if round == 0 { REFILL } else { REFILL - left };
+        if tokio::time::timeout(T_CALL, filler.write_all(&vec![0xBBu8; spend])).await.is_err() { return vec![vec![3]]; }
+        if round < 2 {
+            match fill_until_blocked(&mut filler, idle).await {
+                Some(n) if round == 0 || n == left => {}
+                _ => return vec![vec![3]],
+            }
+        }
+    }
+    // exactly `left` bytes of connection credit remain: open the probe stream
+    let data = payload(seed, 1, 1000);
+    let c2 = cconn.clone();
+    let d2 = data.clone();
+    let opener = tokio::spawn(async move {
+        if kind == 0 {
+            let mut s = match c2.open_uni().await { Ok(o) => match o.await { Ok(s) => s, Err(_) => return 9u64 }, Err(_) => return 9 };
+            let w = s.write_all(&d2).await.is_ok();
+            let _ = tokio::time::timeout(Duration::from_secs(5), s.finish()).await;
+            w as u64
+        } else {
+            let (mut s, _r) = match c2.open_bi().await { Ok(o) => match o.await { Ok(x) => x, Err(_) => return 9 }, Err(_) => return 9 };
+            let w = s.write_all(&d2).await.is_ok();
+            let _ = tokio::time::timeout(Duration::from_secs(5), s.finish()).await;
+            w as u64
+        }
+    });
+    tokio::time::sleep(Duration::from_millis(600)).await;
+    // only now the filler is drained and credit comes back
+    tokio::spawn(async move {
+        let mut sink = vec![0u8; 16 * 1024];
+        while let Ok(Some(_)) = filler_r.read(&mut sink).await {}
+    });
+    let got = if kind == 0 {
+        match tokio::time::timeout(Duration::from_secs(6), sconn.accept_uni()).await {
+            Ok(Ok(mut r)) => Some(read_chunked(&mut r, seed + 5, Duration::from_secs(4)).await),
+            _ => None,
+        }
+    } else {
+        match tokio::time::timeout(Duration::from_secs(6), sconn.accept_bi()).await {
+            Ok(Ok((_s, mut r))) => Some(read_chunked(&mut r, seed + 5, Duration::from_secs(4)).await),
+            _ => None,
+        }
+    };
+    let w = opener.await.unwrap_or(9);
+    let _ = tokio::time::timeout(Duration::from_secs(2), filler.finish()).await;
+    match got {
+        Some((d, end)) => vec![vec![1, w], vec![(d == data) as u64, d.len() as u64, end]],
+        None => vec![vec![1, w], vec![0, 0, 8]],
+    }
+}
+
 async fn exec_inner(a: &Args) -> Args {
+    if a[0].get(5).copied().unwrap_or(0) == 1 {
+        return exec_tight(a).await;
+    }
     let (opener, kind, seed, close_code) = (a[0][0], a[0][1], a[0][2], a[0][3]);
     let sizes: Vec<usize> = a[1].iter().map(|x| *x as usize).collect();
     let reason = a2b(&a[2]);
@@ -194,15 +297,21 @@ pub fn oracle(a: &Args, out: &Args) -> Option<(&'static str, String)> {
     if out[0][0] != 1 {
         return None;
     }
+    if a[0].get(5).copied().unwrap_or(0) == 1 {
+        if out[1] != vec![1, 1000, 0] {
+            return Some(("C01", format!("a {} stream opened with {} bytes of connection credit left: the peer application read equal={} length={} end={} of the 1000 bytes written", if a[0][1] == 0 { "unidirectional" } else { "bidirectional" }, a[0][3], out[1][0], out[1][1], out[1][2])));
+        }
+        return None;
+    }
     let role = format!("{} opens {} streams", if a[0][0] == 0 { "client" } else { "server" }, if a[0][1] == 0 { "unidirectional" } else { "bidirectional" });
     let n = a[1].len();
     if out[0][1] as usize != n {
-        return Some(("C01+C08", format!("{}: {} of {} streams reached the other application", role, out[0][1], n)));
+        return Some(("C01+C08+C06", format!("{}: {} of {} streams reached the other application", role, out[0][1], n)));
     }
     for i in 0..n {
         let r = &out[1 + i];
         if r[0] != 1 || r[1] != a[1][i] || r[2] != 0 {
-            return Some(("C01", format!("{}: a stream of {} bytes arrived as equal={} length={} end={}", role, a[1][i], r[0], r[1], r[2])));
+            return Some(("C01+C06", format!("{}: a stream of {} bytes arrived as equal={} length={} end={}", role, a[1][i], r[0], r[1], r[2])));
         }
     }
     let m = out.iter().position(|v| *v == vec![7777]).unwrap();
@@ -254,6 +363,12 @@ pub fn generate(rng: &mut Rng, thorough: bool) -> Vec<Case> {
                 cs.push(Case::new(671, vec![vec![opener, kind, rng.next() % 1_000_000, code, ct], sizes, b2a(&reason), if j == 0 { dg.clone() } else { vec![] }], "pair"));
                 k += 1;
             }
+        }
+    }
+    // streams opened with less connection credit left than their preamble needs
+    for kind in 0..2u64 {
+        for left in [1u64, 2] {
+            cs.push(Case::new(671, vec![vec![0, kind, rng.next() % 1_000_000, left, 0, 1], vec![], vec![], vec![]], "tight-credit"));
         }
     }
     cs
